@@ -60,6 +60,8 @@ def run(chk, repo, tier):
         raise AnalysisError('F1: no model-wide substitution found (rename_symbols moved?)')
     run_more(chk, repo, fields)
     run_f5_f7(chk, repo)
+    run_f8(chk, repo)
+    run_f9(chk, repo)
 
 
 # bare-statement calls whose dropped result was read and confirmed harmless
@@ -367,3 +369,91 @@ def run_f5_f7(chk, repo):
                           'defined', line=loop.lineno,
                           witness='X assigned by an untouched statement, then a regenerated IF ... ELSE X = 0 block: the ELSE '
                                   'branch is dropped and X keeps its old value')
+
+
+def run_f8(chk, repo):
+    F8 = chk.rule('F8', 'make_declarative: every statement that is emitted and every definition that is kept pending has the '
+                        'pending substitutions applied', floor=5)
+    xm = repo.module('pharmpy.modeling.expressions')
+    f = xm.functions.get('make_declarative')
+    if f is None:
+        raise AnalysisError('make_declarative not found')
+    # the pending-substitution dictionary: subscript-assigned inside a loop and passed to .subs()
+    pend = None
+    for n in ast.walk(f.node):
+        if isinstance(n, ast.Assign) and isinstance(n.targets[0], ast.Subscript) and isinstance(n.targets[0].value, ast.Name):
+            cand = n.targets[0].value.id
+            if any(isinstance(c, ast.Call) and isinstance(c.func, ast.Attribute) and c.func.attr == 'subs' and c.args
+                   and unparse(c.args[0]) == cand for c in ast.walk(f.node)):
+                pend = cand
+    loops = [L for L in walk_no_nested(f.node) if isinstance(L, ast.For) and pend and any(
+        isinstance(c, ast.Call) and isinstance(c.func, ast.Attribute) and c.func.attr == 'append' for c in ast.walk(L))
+        and pend in {x.id for x in ast.walk(L) if isinstance(x, ast.Name)}]
+    if pend is None or not loops:
+        raise AnalysisError('F8: pending-substitution dictionary / emitting loop of make_declarative not recognised')
+    L = loops[-1]
+
+    def has_subs(e):
+        return any(isinstance(c, ast.Call) and isinstance(c.func, ast.Attribute) and c.func.attr == 'subs' and c.args
+                   and unparse(c.args[0]) == pend for c in ast.walk(e))
+
+    def check_block(stmts):
+        for i, s_ in enumerate(stmts):
+            if isinstance(s_, ast.If):
+                check_block(s_.body)
+                check_block(s_.orelse)
+                continue
+            if isinstance(s_, ast.Assign) and isinstance(s_.targets[0], ast.Subscript) \
+                    and isinstance(s_.targets[0].value, ast.Name) and s_.targets[0].value.id == pend:
+                ok = has_subs(s_.value)
+                chk.instance(F8, f'pending definition `{unparse(s_)[:70]}` has the earlier substitutions applied: {ok}')
+                if not ok:
+                    chk.violation(F8, xm.rel, f.name, unparse(s_),
+                                  f'the definition kept in `{pend}` still refers to symbols whose own pending definitions are in '
+                                  f'`{pend}`; when it is substituted later those symbols have other values', line=s_.lineno,
+                                  witness='X = 1; Z = X; X = X + 1; Z = Z + X: make_declarative gives Z = 2*X = 4 instead of 3')
+            if isinstance(s_, ast.Expr) and isinstance(s_.value, ast.Call) and isinstance(s_.value.func, ast.Attribute) \
+                    and s_.value.func.attr == 'append' and s_.value.args:
+                a = s_.value.args[0]
+                ok = has_subs(a)
+                if not ok and isinstance(a, ast.Name):
+                    prev = [p for p in stmts[:i] if isinstance(p, ast.Assign) and any(
+                        isinstance(t, ast.Name) and t.id == a.id for t in p.targets)]
+                    ok = bool(prev) and has_subs(prev[-1].value)
+                chk.instance(F8, f'emitted `{unparse(s_)[:60]}` has the pending substitutions applied: {ok}')
+                if not ok:
+                    chk.violation(F8, xm.rel, f.name, unparse(s_),
+                                  'a statement is emitted without the pending substitutions: it refers to symbols whose '
+                                  'definition was removed or moved after it', line=s_.lineno,
+                                  witness='CL defined in $PK, used by the ODE system and re-assigned in $ERROR: after '
+                                          'make_declarative the ODE rates use a CL that is only defined afterwards')
+    check_block(L.body)
+
+
+def run_f9(chk, repo):
+    F9 = chk.rule('F9', 'setting random effects to zero uses the complete sets (random_variables.etas / .epsilons), not one '
+                        'variability level', floor=2)
+    n = 0
+    for modname in ('pharmpy.modeling.expressions', 'pharmpy.modeling.evaluation'):
+        m = repo.module(modname)
+        for f in m.functions.values():
+            for dc in [x for x in ast.walk(f.node) if isinstance(x, (ast.DictComp, ast.ListComp, ast.GeneratorExp, ast.SetComp))]:
+                it = dc.generators[0].iter
+                txt = unparse(it)
+                if 'random_variables.' not in txt or not txt.endswith(('.names', '.symbols')):
+                    continue
+                zero = isinstance(dc, ast.DictComp) and isinstance(dc.value, ast.Constant) and dc.value.value == 0
+                if not zero:
+                    continue
+                n += 1
+                attr = txt.split('random_variables.')[1].split('.')[0]
+                ok = attr in ('etas', 'epsilons')
+                chk.instance(F9, f'{f.name}: zero substitution over random_variables.{attr}: complete set {ok}')
+                if not ok:
+                    chk.violation(F9, m.rel, f.name, unparse(dc)[:100],
+                                  f'only the `{attr}` level is set to zero; the other etas stay in the "population" expression',
+                                  line=dc.lineno,
+                                  witness='a $PRED model with inter-occasion variability (add_iov): the population prediction '
+                                          'still contains the IOV etas and differs from the individual prediction at eta = 0')
+    if n < 2:
+        raise AnalysisError(f'F9: only {n} zero-substitutions of random effects found')
